@@ -51,6 +51,9 @@ def check(run):
         b = run.borrow("C07", why="filters_tagged on the wire reflects the producer's tags; the consumer's are re-applied")
         run.guard("C08.via.C07.4.deserialize", cfg, lambda: _C07.rule_deserialize(b, F, cfg))
         run.guard("C08.5.helpers-lossless", cfg, lambda: rule_helpers(run, F, cfg))
+        from . import C09 as _C09f
+        b94 = run.borrow("C09", only=r"decoded-state-installed-verbatim|post-load-mutation", why="the loaded engine behaves like the one that was serialized only if everything decoded is installed as decoded (not overridden by the receiving engine's own settings)")
+        run.guard("C08.via.C09.4.fixpoint", cfg, lambda: (_C09f.rule_fixpoint(b94, F, cfg), _C09f.rule_no_carry(b94, F, cfg)))
 
 
 def rule_coverage(run, F, cfg):
@@ -275,7 +278,7 @@ def rule_positional(run, F, cfg):
             gen = t.get("gen", [])
             T = gen[-1] if gen else ""
             if "__SerializeWith" in T:
-                w = _C09.with_impl(F, T)
+                w = _C09.with_impl(F, T, f.expr_operand(t["args"][2]) if len(t["args"]) > 2 else None)
                 if w is not None:
                     for wb, wt in w.calls():
                         if wt.get("local"):
